@@ -76,6 +76,47 @@ pub fn gen_scenario(r: &mut Rng) -> Scenario {
     Scenario { before, away, during, clean_stop: r.chance(1, 2), wipe: r.chance(1, 4), bystander: r.chance(1, 3) }
 }
 
+/// Directed scenarios: the joiner stops cleanly with everything persisted (valid oplog, so it asks for a since-a-time
+/// catch-up) and the operations it misses are every order of {update in an old database, creation of a new database,
+/// update of another key in the old database, update in the new database, remove in the old database}, alone or with
+/// one more write racing the synchronisation.
+pub fn directed_scenarios() -> Vec<Scenario> {
+    let pool: Vec<Op> = vec![Op::Set(0, "k1".into(), 0), Op::CreateDb(1), Op::Set(0, "k2".into(), 1), Op::Set(1, "k0".into(), 2), Op::Remove(0, "k0".into())];
+    let mut out = vec![];
+    // all ordered selections of 3 and 4 operations in which a database is created before it is written
+    fn rec(pool: &[Op], cur: &mut Vec<usize>, want: usize, out: &mut Vec<Vec<usize>>) {
+        if cur.len() == want {
+            out.push(cur.clone());
+            return;
+        }
+        for i in 0..pool.len() {
+            if !cur.contains(&i) {
+                cur.push(i);
+                rec(pool, cur, want, out);
+                cur.pop();
+            }
+        }
+    }
+    let mut orders = vec![];
+    rec(&pool, &mut vec![], 3, &mut orders);
+    rec(&pool, &mut vec![], 4, &mut orders);
+    for o in orders {
+        let created_pos = o.iter().position(|i| *i == 1);
+        let used_pos = o.iter().position(|i| *i == 3);
+        if let Some(u) = used_pos {
+            if created_pos.map(|c| c > u).unwrap_or(true) {
+                continue;
+            }
+        }
+        let away: Vec<Op> = o.iter().map(|i| pool[*i].clone()).collect();
+        let before = vec![Op::CreateDb(0), Op::Set(0, "k0".into(), 3), Op::Set(0, "k1".into(), 4), Op::Snapshot(0)];
+        for during in [vec![], vec![Op::Set(0, "k1".into(), 5)]] {
+            out.push(Scenario { before: before.clone(), away: away.clone(), during, clean_stop: true, wipe: false, bystander: false });
+        }
+    }
+    out
+}
+
 fn render(op: &Op) -> (usize, String) {
     match op {
         Op::CreateDb(d) => (*d, format!("create-db {} tok-{} {}", DBS[*d].0, DBS[*d].0, DBS[*d].1)),
@@ -227,6 +268,11 @@ pub fn run_scenario(sc: &Scenario, seed0: u64, v: &Verdicts, st: &Mutex<Stats>) 
                 // the value the primary held when it produced the line is the rest of the line after "replicate <db> <key> "
                 let sent = l.3.splitn(4, ' ').nth(3).unwrap_or("").to_string();
                 let holds_now = keys.get(&key).map(|x| x.0.clone());
+                // independent of how the line parses: with no client operation racing the synchronisation the primary still holds
+                // what it held when it wrote the line, so the line must carry exactly that
+                if sc.during.is_empty() && holds_now.is_some() && holds_now.as_deref() != Some(sent.as_str()) {
+                    problems.push(("catch-up-line-carries-a-value-the-primary-does-not-hold".to_string(), format!("line '{}' but the primary holds {:?} for {} {}", l.3, holds_now, db, key)));
+                }
                 if value != sent && (holds_now.as_deref() == Some(sent.as_str()) || holds_now.is_none()) {
                     let class = if value.is_empty() && !sent.contains(' ') { "one-word-value-parsed-as-empty" } else if sent.starts_with(|ch: char| ch.is_ascii_digit()) { "leading-number-taken-as-version" } else if sent.contains(' ') { "first-word-of-value-lost" } else { "value-changed-in-transit" };
                     problems.push((format!("catch-up-line-does-not-round-trip:{}", class), format!("line '{}' parses to key {} value {:?}", l.3, key, value)));
@@ -321,18 +367,22 @@ pub fn run(tier: &str) -> i32 {
     let v = Verdicts::load("C05");
     let mut ev = Evidence::new("C05", tier, "exploration");
     let st = Mutex::new(Stats { runs: 0, shapes: BTreeSet::new(), sync_lines: 0, keys_compared: 0, full_syncs: 0, incremental_syncs: 0, inconclusive: 0, samples: vec![] });
-    let n_runs = if thorough { 5000 } else { 320 };
+    let directed = directed_scenarios();
+    let n_directed = if thorough { directed.len() } else { 80 };
+    let directed_stride = (directed.len() / n_directed).max(1);
+    let n_runs = (if thorough { 5000 } else { 320 }) + n_directed;
     let next = std::sync::atomic::AtomicUsize::new(0);
     std::thread::scope(|sc| {
         for _ in 0..workers() {
-            let (next, v, st) = (&next, &v, &st);
+            let (next, v, st, directed) = (&next, &v, &st, &directed);
             sc.spawn(move || loop {
                 let i = next.fetch_add(1, std::sync::atomic::Ordering::SeqCst);
                 if i >= n_runs {
                     break;
                 }
                 let mut r = Rng::new(seed().wrapping_mul(3_000_017).wrapping_add(i as u64));
-                let scn = gen_scenario(&mut r);
+                // the directed scenarios first (a seeded sample of them in the quick tier), then seeded random ones
+                let scn = if i < n_directed { (if directed_stride == 1 { directed[i].clone() } else { directed[Rng::new(seed().wrapping_mul(77_003).wrapping_add(i as u64)).below(directed.len())].clone() }) } else { gen_scenario(&mut r) };
                 run_scenario(&scn, r.next(), v, st);
             });
         }
@@ -342,7 +392,7 @@ pub fn run(tier: &str) -> i32 {
     ev.set("free_running_sync_race", json!({"attempts": race.attempts, "full_syncs": race.full, "incremental_syncs": race.incremental, "attempts_where_the_catch_up_was_served_between_live_writes": race.overlapped, "link_lines_replayed": race.lines, "keys_judged": race.keys_judged}));
     ev.evaluations = s.runs;
     ev.distinct_nontrivial = s.shapes.len() as u64;
-    ev.rule = format!("{} simulated-cluster runs: primary history of 1-10 operations (create-db with none/newer/arbiter strategy, set with values from {{one, 'two words', '9 lives', '', '  padded', non-ASCII}}, remove, increment, snapshot) over up to 3 databases, split at two seeded points into before-departure / while-away / during-sync; the joiner leaves by clean stop (valid oplog) or kill, optionally with its disk wiped, optionally with a third node watching; distinct_nontrivial = distinct (sync kind the joiner requested, departure, disk, split sizes, cluster size); + {} free-running attempts (real replication loop and supervisor on their own threads, 3 writer sessions on their own keys while the supervisor serves a full or since-a-time catch-up): the stream sent to the secondary must end, for every key, with the value the primary ended with", n_runs, race.attempts);
+    ev.rule = format!("{} simulated-cluster runs ({} of them directed: clean stop with everything persisted, then every order of 3-4 of {{update in an old database, create a new database, update another key of the old database, update in the new database, remove in the old database}} while away, with and without a write racing the synchronisation; the rest seeded random): primary history of 1-10 operations (create-db with none/newer/arbiter strategy, set with values from {{one, 'two words', '9 lives', '', '  padded', non-ASCII}}, remove, increment, snapshot) over up to 3 databases, split at two seeded points into before-departure / while-away / during-sync; the joiner leaves by clean stop (valid oplog) or kill, optionally with its disk wiped, optionally with a third node watching; distinct_nontrivial = distinct (sync kind the joiner requested, departure, disk, split sizes, cluster size); + {} free-running attempts (real replication loop and supervisor on their own threads, 3 writer sessions on their own keys while the supervisor serves a full or since-a-time catch-up): the stream sent to the secondary must end, for every key, with the value the primary ended with", n_runs, n_directed, race.attempts);
     ev.samples = s.samples.clone();
     ev.set("full_syncs", json!(s.full_syncs));
     ev.set("incremental_syncs", json!(s.incremental_syncs));
